@@ -818,7 +818,13 @@ func slSetStr(m map[acmelib.EntityID]bool) string {
 	return listStr(xs)
 }
 
-func slRefsCheck[R interface{ EntityID() acmelib.EntityID }](c *slInv, what string, refs []R, refCount int, users map[acmelib.EntityID]bool, exact bool) {
+// outside: a reference that is not a user found in the network is still legitimate when this
+// says so (a saved node that no bus attaches uses its attributes although it is outside the network)
+func slRefsCheck[R interface{ EntityID() acmelib.EntityID }](c *slInv, what string, refs []R, refCount int, users map[acmelib.EntityID]bool, exact bool, outside ...func(R) bool) {
+	byID := map[acmelib.EntityID]R{}
+	for _, r := range refs {
+		byID[r.EntityID()] = r
+	}
 	got := map[acmelib.EntityID]bool{}
 	for _, r := range refs {
 		got[r.EntityID()] = true
@@ -834,6 +840,9 @@ func slRefsCheck[R interface{ EntityID() acmelib.EntityID }](c *slInv, what stri
 	if exact {
 		for g := range got {
 			if !users[g] {
+				if len(outside) > 0 && outside[0](byID[g]) {
+					continue
+				}
 				c.bad("reference-lists", "%s: References holds %s which does not use it in the network (users %s)", what, g, slSetStr(users))
 			}
 		}
@@ -991,7 +1000,17 @@ func slInvariants(net *acmelib.Network, exactRefs bool, names ...string) []slVio
 		}
 	}
 	for a, us := range c.attrUsers {
-		slRefsCheck(c, sprintf("attribute %q(%s)", a.Name(), a.EntityID()), a.References(), len(a.References()), us, exactRefs)
+		att := a
+		slRefsCheck(c, sprintf("attribute %q(%s)", a.Name(), a.EntityID()), a.References(), len(a.References()), us, exactRefs,
+			func(aa *acmelib.AttributeAssignment) bool {
+				// a node of the save that no bus attaches: it does carry the assignment
+				n, err := aa.ToNodeEntity()
+				if err != nil || c.nodes[n] {
+					return false
+				}
+				got, err := n.GetAttributeAssignment(att.EntityID())
+				return err == nil && got == aa
+			})
 		what := sprintf("attribute %q(%s)", a.Name(), a.EntityID())
 		switch a.Type() {
 		case acmelib.AttributeTypeInteger:
